@@ -20,9 +20,8 @@ theorem backref_copy (ctx : Ctx) (g p : Nat) (st : St) (hg : g < st.startBr.leng
       if p + (e - s) ≤ ctx.len ∧ sameText ctx (e - s) p s = true then Step.once (p + (e - s)) st else Step.nil st := by
   unfold backrefGen
   have h1 : ¬ (g ≥ st.startBr.length) := by omega
-  have h2 : (s == e) = false := by simp; omega
-  have h3 : ¬ (e < s) := by omega
-  simp only [h1, if_false, hs, he, h2, h3, Bool.false_eq_true]
+  have h3 : ¬ (e ≤ s) := by omega
+  simp only [h1, if_false, hs, he, h3]
   by_cases h4 : p + (e - s) ≤ ctx.len
   · have : ¬ (p + (e - s) - 1 ≥ ctx.len) := by omega
     simp [h4, this]
